@@ -482,12 +482,16 @@ func PromoteOptionsToConstructor(selector Selector, optionNames []string) Rewrit
 					continue
 				}
 
-				// TODO: do it for every argument/assignment?
-				arg := opt.Args[0].DeepCopy()
-				arg.Type.Nullable = false
+				// every argument the promoted assignments use has to be a constructor argument
+				for _, optArg := range opt.Args {
+					arg := optArg.DeepCopy()
+					arg.Type.Nullable = false
 
-				builders[i].Constructor.Args = append(builders[i].Constructor.Args, arg)
-				builders[i].Constructor.Assignments = append(builders[i].Constructor.Assignments, opt.Assignments[0])
+					builders[i].Constructor.Args = append(builders[i].Constructor.Args, arg)
+				}
+				for _, assignment := range opt.Assignments {
+					builders[i].Constructor.Assignments = append(builders[i].Constructor.Assignments, assignment.DeepCopy())
+				}
 
 				builders[i].AddToVeneerTrail(fmt.Sprintf("PromoteOptionsToConstructor[%s]", optName))
 			}
